@@ -26,8 +26,8 @@ Spec == Init /\ [][Next]_vars
 StepAgrees == scan = ScanAll("in", EscapeAll(FALSE, payload) ) \/ pending
 (* no program text leaves the literal: never closed (or broken by a raw newline) while feeding *)
 NeverClosedEarly == scan \in {"in", "esc"}
-(* after the transpiler's own closing quote the literal is closed, or (lone trailing backslash) broken *)
-AtEnd == LET fin == ScanAll("in", EscapeAll(FALSE, payload) \o <<c_dquote>>) IN fin \in {"closed", "in"}
+(* after the transpiler's own closing quote the literal is closed *)
+AtEnd == ScanAll("in", EscapeAll(FALSE, payload) \o <<c_dquote>>) = "closed"
 (* identifiers: whatever survives the sanitiser is an identifier tail *)
 ParamIdentOK == IsIdentTail(Sanitise(payload, KeepParam))
 NameIdentOK == IsIdentTail(Sanitise(payload, KeepName))
